@@ -113,10 +113,15 @@ def gen_cases(tier, seed):
                 for first in ([{'at': 1, 'act': ['pause', 'pp']}], [{'at': 'q', 'act': ['pause', 'pq']}]):
                     plan = first + [{'at': 'q', 'act': list(a)} for a in perm]
                     paused_cases.append({'name': name, 'program': prog, 'plan': plan, 'drain': True, 'listener': False})
+                # an item completes and a pause is requested in the same loop iteration (the completion first), the others follow
+                # while paused
+                for s0 in rng.sample(range(1, nslots + 1), min(3, nslots)):
+                    plan = [{'at': s0, 'act': list(perm[0])}, {'at': s0, 'act': ['pause', 'ps']}] + [{'at': 'q', 'act': list(a)} for a in perm[1:]]
+                    paused_cases.append({'name': name, 'program': prog, 'plan': plan, 'drain': True, 'listener': False})
         if len(cases) > cap:
             cases = rng.sample(cases, cap)
-        if len(paused_cases) > cap // 5:
-            paused_cases = rng.sample(paused_cases, cap // 5)
+        if len(paused_cases) > cap // 3:
+            paused_cases = rng.sample(paused_cases, cap // 3)
         cases += paused_cases
         for case in cases:
             yield case
